@@ -411,13 +411,23 @@ func (s *c08Sys) assigned(node string) (out []c08Assigned, objs []*corev1.Pod, r
 	return
 }
 
+// tag names the rare-event class whose symptom is present in the state (only used to key findings): a bound pod
+// that received a metadata-only update and whose cached object is not the delivered one, or a bound pod that a late
+// Unreserve removed from the cache. "plain" otherwise.
 func (s *c08Sys) tag() string {
 	var tags []string
 	for _, p := range s.pods {
-		if p.staleMeta && p.inf == c08Bound {
+		if p.inf != c08Bound || !(p.staleMeta || p.lateUnres) {
+			continue
+		}
+		var held *podAssignInfo
+		if ni, ok := s.cache.getNodeInfo(p.spec.Node); ok && ni != nil {
+			held = ni.podInfos[p.obj.UID]
+		}
+		if p.staleMeta && held != nil && held.pod != p.obj {
 			tags = append(tags, "metadata-only-update")
 		}
-		if p.lateUnres && p.inf == c08Bound {
+		if p.lateUnres && held == nil {
 			tags = append(tags, "unreserve-after-confirmed-bind")
 		}
 	}
@@ -425,7 +435,7 @@ func (s *c08Sys) tag() string {
 		return "plain"
 	}
 	sort.Strings(tags)
-	return strings.Join(tags[:1], "+")
+	return tags[0]
 }
 
 // viol: violations in states that a rare event has touched (see tag) are filed under one key per rare-event class,
